@@ -616,7 +616,7 @@ def registry(ops=(("append", "N1"), ("append", "N2"))):
 
 
 # ---- concurrent start() of the fabric (C13) -----------------------------------------------------------------------------------
-def fabric_start(scripts=(("start",), ("start",)), pool=4, prestarted=False):
+def fabric_start(scripts=(("start",), ("start",)), pool=4, prestarted=False, queued=(0, 0)):
   """each caller thread runs a script of calls on one ActiveFabricSource: 'start', 'stop', 'is_alive'.
   Threads created by start() come from a pool of `pool` modelled threads whose body is the delivery loop waiting on its queue."""
   import miros.activeobject as ao
@@ -624,8 +624,9 @@ def fabric_start(scripts=(("start",), ("start",)), pool=4, prestarted=False):
   prototypes(sc)
   signals_ns(sc)
   run_event = sc.add(M.MEvent("fabric_event", 0))
-  qf = sc.add(M.MQueue("fifo_queue", 4))
-  ql = sc.add(M.MQueue("lifo_queue", 4))
+  # queued: publications (for signals nobody subscribed to) already waiting in the fifo / lifo queue when the callers begin
+  qf = sc.add(M.MQueue("fifo_queue", 4, count=queued[0]))
+  ql = sc.add(M.MQueue("lifo_queue", 4, count=queued[1]))
   ncallers = len(scripts)
   threads = []
   for j in range(pool):
@@ -703,7 +704,8 @@ def fabric_start(scripts=(("start",), ("start",)), pool=4, prestarted=False):
                     [SO(run_event), SO(qf), SO(ql), SE(V("g.kind.%d" % j))], {})
     sc.programs.append(c.finish())
     sc.spawned[ncallers + j] = threads[j]
-  sc.info = {"ncallers": ncallers, "pool": pool, "scripts": [list(x) for x in scripts],              "lock_attrs": [k for k, v in attrs.items() if isinstance(v, M.MRLock)]}
+  sc.info = {"ncallers": ncallers, "pool": pool, "scripts": [list(x) for x in scripts], "queued": list(queued),
+             "lock_attrs": [k for k, v in attrs.items() if isinstance(v, M.MRLock)]}
   return sc
 
 
